@@ -310,6 +310,21 @@ def run_case(ctx, kind, rng, idx):
     elem_shape = [(), (), (), (3,), (2,)][int(rng.integers(0, 5))]
     rows = M.make_rows(rng, elem_shape=elem_shape)
     how, a, _ = build(rng, rows)
+    if len(rows) >= 2 and not elem_shape and how != 'nested-lists' and \
+            rng.random() < 0.15:
+        # an array with a past: read once, then two rows exchanged by two
+        # row assignments (row count and element count unchanged) - the
+        # reads below see the exchanged rows
+        i_, j_ = (int(x) for x in rng.choice(len(rows), size=2, replace=False))
+        a[0, 0]
+        list(a.starts)
+        a[:, :]
+        a[i_] = rows[j_].copy()
+        a[j_] = rows[i_].copy()
+        rows = list(rows)
+        rows[i_], rows[j_] = rows[j_], rows[i_]
+        how += '+rows-exchanged'
+        ctx.count('arrays_with_a_past')
     lens = [len(r) for r in rows]
     desc = {'lens': lens, 'elem': list(elem_shape), 'how': how,
             'dtype': str(rows[0].dtype)}
